@@ -291,11 +291,11 @@ class LinearLabelMapper:
                 stoichiometry = {}
                 if substrate != "EXT":
                     stoichiometry[substrate] = Derived(
-                        fn=_neg_one_div, args=[substrate.split("__")[0]]
+                        fn=_neg_one_div, args=[substrate.rsplit("__", 1)[0]]
                     )
                 if product != "EXT":
                     stoichiometry[product] = Derived(
-                        fn=_one_div, args=[product.split("__")[0]]
+                        fn=_one_div, args=[product.rsplit("__", 1)[0]]
                     )
 
                 m.add_reaction(
